@@ -176,13 +176,13 @@ def well_formed(ttn) -> List[str]:
 
 def is_isometry(mat: np.ndarray, tol: float = 1e-9) -> bool:
     g = mat.conj().T @ mat
-    return np.allclose(g, np.eye(g.shape[0]), atol=tol)
+    return np.allclose(g, np.eye(g.shape[0]), rtol=0.0, atol=tol)
 
 
 def is_partial_isometry(mat: np.ndarray, tol: float = 1e-9) -> bool:
     """M^H M is an orthogonal projector."""
     g = mat.conj().T @ mat
-    return np.allclose(g @ g, g, atol=tol) and np.allclose(g, g.conj().T, atol=tol)
+    return np.allclose(g @ g, g, rtol=0.0, atol=tol) and np.allclose(g, g.conj().T, rtol=0.0, atol=tol)
 
 
 def matricize_toward(ttn, nid: str, toward: str) -> np.ndarray:
